@@ -8,7 +8,7 @@ IDS=$(python3 -c "import json;print(' '.join(c['property_id'] for c in json.load
 [ -d $WT ] || git -C /repo worktree add -q --detach $WT HEAD || exit 1
 AREAS=${@:-$(ls $ROOT/benign)}
 for a in $AREAS; do
- for p in $ROOT/benign/$a/patch-*.diff; do
+ for p in $ROOT/benign/$a/${BENPAT:-patch-*.diff}; do
   cd $WT; git checkout -q -- . ; git clean -fdq
   git apply $p || { echo "== $a/$(basename $p): DOES NOT APPLY"; continue; }
   go build ./... || { echo "== $a/$(basename $p): DOES NOT BUILD"; continue; }
